@@ -15,6 +15,10 @@ pub fn lattice(rng: &mut Rng, extra: usize) -> Vec<TimeDelta> {
     let mut ns: Vec<i128> = vec![0, 1, 999, 1000, 999_999, 1_000_000, 999_999_999, NS, NS + 1, 1_500_000_000, 2 * NS - 1, 60 * NS, 3600 * NS, 86_400 * NS, 604_800 * NS,
         i64max - 1, i64max, i64max + 1, i64max * 1000 - 1, i64max * 1000, i64max * 1000 + 1, DUR_LIM - NS, DUR_LIM - 1, DUR_LIM, DUR_LIM / 2, DUR_LIM / 2 + 1, DUR_LIM / 3,
         (i64::MAX as i128 / 1000) * NS, (i64::MAX as i128 / 1000) * NS + 806_999_999, (i64::MAX as i128 / 1000) * NS + 807_000_000, (1i128 << 32) * NS, (1i128 << 31) * NS - 1];
+    // boundaries of every accessor's unit, with and without a sub-unit part (truncation toward zero vs floor)
+    for u in [1_000i128, 1_000_000, NS, 60 * NS, 3600 * NS, 86_400 * NS, 604_800 * NS] {
+        for k in [1i128, 2, 59, 60, 1000] { for d in [1i128, 500_000_000, NS - 1, u / 2] { ns.push(k * u + d); ns.push((k * u - d).abs()); } }
+    }
     for _ in 0..extra {
         ns.push(match rng.below(3) { 0 => (rng.next() as i128) % DUR_LIM, 1 => (rng.loguniform(62) as i128).abs(), _ => (rng.range(0, 4_000_000) as i128) * NS + rng.range(0, 999_999_999) as i128 });
     }
